@@ -102,6 +102,10 @@ def engine_part(a, b, kind, attrs, fails, GraphMatcherEngine):
             fails.append(Fail("isomorphic", f"{tagsel} wl={wl}: ({g1},{g2})", f"definition: host=obj1 {iso_ab}, host=obj2 {iso_ba}", key_extra=f"{tagsel},wl={wl}"))
         elif iso_ab == iso_ba and g1 != g2:
             fails.append(Fail("isomorphic_asymmetric", f"{tagsel} wl={wl}: ({g1},{g2})", f"{iso_ab} both ways", key_extra=f"{tagsel},wl={wl}"))
+    for wl in (False, True):
+        eng = GraphMatcherEngine(node_attrs=list(attrs), edge_attrs=["order"], wl1_filter=wl, max_mappings=None)
+        if eng.isomorphic(a, a) is not True or not eng.get_mappings(a, a):
+            fails.append(Fail("same_object_pair", f"{tagsel} wl={wl}: isomorphic(a,a)={eng.isomorphic(a, a)} mappings={eng.get_mappings(a, a)}", "True and at least one mapping", key_extra=f"{tagsel},wl={wl}"))
     contained_any = False
     for pat, host, tag in ((a, b, "a_in_b"), (b, a, "b_in_a")):
         want = [m for m in rm.morphisms(pat, host, nok, edge_ok, induced=True)]
